@@ -28,6 +28,14 @@ Semantics of the translation
   source for which this is not the case shows up in the correspondence at the smallest n),
   `a // c` with a positive literal c is Nat division.
 
+* the six closed-form constructors whose arrays are element-wise (UniformInteger,
+  GaussChebyshevLobatto, Trapezoidal, RectangleRuleSineEndPoints, Simpson, MidPoint): the whole
+  constructor.  Every assignment to an array becomes one definition `<Class>.<name><k> (n i : Nat) : K`
+  of its entry `i` (SSA: `k` counts the assignments to the name; a matrix gets `(n j i : Nat)`),
+  `a[::-1]` reads the previous version at `len - 1 - i`, `a[idx] /= c` and `a[lo:hi:st] *= c` become an
+  `if` on the index, `b @ M` becomes `gsum`, the guards become `<Class>.rejects (npoints : Int) : Bool`,
+  the lengths `<Class>.pointsLen/weightsLen`, the domain `<Class>.lo/hi`.
+
 Anything outside this vocabulary raises `Untranslatable` (reported by the runner as a broken
 obligation)."""
 import ast
@@ -43,6 +51,7 @@ class Untranslatable(Exception):
 
 SUBST = ["TanhSinh", "ExpSinh", "LogExpSinh", "ExpExp", "SingleTanh", "SingleExp", "SingleArcSinhExp"]
 SERIES = ["ClenshawCurtis", "FejerFirst", "FejerSecond"]
+CLOSED = ["UniformInteger", "GaussChebyshevLobatto", "Trapezoidal", "RectangleRuleSineEndPoints", "Simpson", "MidPoint"]
 ELEM = {
     "exp": "exp", "log": "log", "sqrt": "sqrt", "sin": "sin", "cos": "cos", "tan": "tan", "tanh": "tanh",
     "sinh": "sinh", "cosh": "cosh", "arcsinh": "arcsinh", "arcsin": "arcsin", "arccos": "arccos",
@@ -454,6 +463,225 @@ def series_rule(tree, src, cls):
 
 
 # ----------------------------------------------------------------------------------------------
+# closed-form constructors with element-wise arrays: the whole constructor
+# ----------------------------------------------------------------------------------------------
+class Sc:
+    """scalar of type K"""
+    def __init__(self, term):
+        self.term = term
+
+
+class Ar:
+    """1-D array: `length` is a Lean Nat term, `at(idx)` the Lean K term of entry `idx` (a Lean Nat term)"""
+    def __init__(self, length, at):
+        self.length, self.at = length, at
+
+
+class Mt:
+    """2-D array: entry (j, i)"""
+    def __init__(self, rows, cols, at):
+        self.rows, self.cols, self.at = rows, cols, at
+
+
+class ArrayExpr:
+    """NumPy expression over scalars / 1-D / 2-D arrays -> Sc / Ar / Mt (entry-wise Lean terms)."""
+
+    def __init__(self, src, env, nenv):
+        self.src, self.env, self.nenv = src, env, nenv
+
+    def nat(self, e):
+        return NExpr(self.nenv).tr(e)
+
+    def lift(self, f, *vals):
+        """entry-wise application of the term builder f to broadcast values"""
+        if any(isinstance(v, Mt) for v in vals):
+            m = next(v for v in vals if isinstance(v, Mt))
+            if any(isinstance(v, Ar) for v in vals):
+                raise Untranslatable("broadcast of a vector against a matrix")
+            for v in vals:
+                if isinstance(v, Mt) and (v.rows, v.cols) != (m.rows, m.cols):
+                    raise Untranslatable("matrix shapes differ")
+            return Mt(m.rows, m.cols, lambda j, i: f(*[v.at(j, i) if isinstance(v, Mt) else v.term for v in vals]))
+        if any(isinstance(v, Ar) for v in vals):
+            a = next(v for v in vals if isinstance(v, Ar))
+            for v in vals:
+                if isinstance(v, Ar) and v.length != a.length:
+                    raise Untranslatable(f"array lengths differ: {v.length} / {a.length}")
+            return Ar(a.length, lambda i: f(*[v.at(i) if isinstance(v, Ar) else v.term for v in vals]))
+        return Sc(f(*[v.term for v in vals]))
+
+    def tr(self, e):
+        if isinstance(e, ast.Constant):
+            return Sc(const_k(e, self.src))
+        if isinstance(e, ast.Name):
+            if e.id not in self.env:
+                raise Untranslatable(f"unknown name {e.id!r} (line {e.lineno})")
+            return self.env[e.id]
+        if is_np(e, "pi"):
+            return Sc("Elem.pi")
+        if isinstance(e, ast.UnaryOp) and isinstance(e.op, ast.USub):
+            return self.lift(lambda a: f"(-{a})", self.tr(e.operand))
+        if isinstance(e, ast.Subscript):
+            v = self.tr(e.value)
+            sl = e.slice
+            if (isinstance(v, Ar) and isinstance(sl, ast.Slice) and sl.lower is None and sl.upper is None
+                    and isinstance(sl.step, ast.UnaryOp) and isinstance(sl.step.op, ast.USub)
+                    and isinstance(sl.step.operand, ast.Constant) and sl.step.operand.value == 1):
+                return Ar(v.length, lambda i, v=v: v.at(f"({v.length} - 1 - {i})"))
+            raise Untranslatable(f"subscript (line {e.lineno})")
+        if isinstance(e, ast.BinOp):
+            if isinstance(e.op, ast.MatMult):
+                a, m = self.tr(e.left), self.tr(e.right)
+                if not (isinstance(a, Ar) and isinstance(m, Mt) and a.length == m.rows):
+                    raise Untranslatable(f"@ of something else than vector @ matrix of matching length (line {e.lineno})")
+                return Ar(m.cols, lambda i, a=a, m=m: f"(gsum {m.rows} (fun j => ({a.at('j')} * {m.at('j', i)})))")
+            if isinstance(e.op, ast.Pow):
+                if isinstance(e.right, ast.Constant) and isinstance(e.right.value, int) and not isinstance(e.right.value, bool) and e.right.value >= 0:
+                    return self.lift(lambda a: f"(npow {a} {e.right.value})", self.tr(e.left))
+                raise Untranslatable(f"** with a non-literal exponent (line {e.lineno})")
+            ops = {ast.Add: "+", ast.Sub: "-", ast.Mult: "*", ast.Div: "/"}
+            if type(e.op) not in ops:
+                raise Untranslatable(f"operator {type(e.op).__name__} (line {e.lineno})")
+            o = ops[type(e.op)]
+            return self.lift(lambda a, b: f"({a} {o} {b})", self.tr(e.left), self.tr(e.right))
+        if isinstance(e, ast.Call) and is_np(e.func) and not e.keywords:
+            fn, args = e.func.attr, e.args
+            if fn in ELEM and len(args) == 1:
+                return self.lift(lambda a: f"(Elem.{ELEM[fn]} {a})", self.tr(args[0]))
+            if fn == "power" and len(args) == 2:
+                return self.tr(ast.BinOp(left=args[0], op=ast.Pow(), right=args[1], lineno=e.lineno))
+            if fn == "ones" and len(args) == 1:
+                return Ar(self.nat(args[0]), lambda i: nat(1))
+            if fn == "arange":
+                if len(args) == 1:
+                    return Ar(self.nat(args[0]), lambda i: f"(({i} : Nat) : K)")
+                if len(args) in (2, 3):
+                    if len(args) == 3 and not (isinstance(args[2], ast.Constant) and args[2].value == 1):
+                        raise Untranslatable(f"np.arange with a step other than 1 (line {e.lineno})")
+                    if not (isinstance(args[0], ast.Constant) and isinstance(args[0].value, int) and args[0].value >= 0):
+                        raise Untranslatable(f"np.arange with a non-literal start (line {e.lineno})")
+                    a = args[0].value
+                    return Ar(f"({self.nat(args[1])} - {a})", lambda i: f"((({a} + {i}) : Nat) : K)")
+            if fn == "outer" and len(args) == 2:
+                a, b = self.tr(args[0]), self.tr(args[1])
+                if not (isinstance(a, Ar) and isinstance(b, Ar)):
+                    raise Untranslatable(f"np.outer of non-vectors (line {e.lineno})")
+                return Mt(a.length, b.length, lambda j, i, a=a, b=b: f"({a.at(j)} * {b.at(i)})")
+        raise Untranslatable(f"expression {ast.dump(e)[:80]} (line {getattr(e, 'lineno', '?')})")
+
+
+def _guard_cond(test, npname):
+    """`npoints <= c`, `npoints < c`, `npoints % c == 0` -> Lean Bool term in `(npoints : Int)`"""
+    if isinstance(test, ast.Compare) and len(test.ops) == 1 and isinstance(test.comparators[0], ast.Constant) \
+            and isinstance(test.comparators[0].value, int) and not isinstance(test.comparators[0].value, bool):
+        c = test.comparators[0].value
+        lhs, op = test.left, test.ops[0]
+        if isinstance(lhs, ast.Name) and lhs.id == npname:
+            l = "npoints"
+        elif (isinstance(lhs, ast.BinOp) and isinstance(lhs.op, ast.Mod) and isinstance(lhs.left, ast.Name) and lhs.left.id == npname
+              and isinstance(lhs.right, ast.Constant) and isinstance(lhs.right.value, int) and lhs.right.value > 0):
+            l = f"npoints % {lhs.right.value}"
+        else:
+            raise Untranslatable(f"guard at line {test.lineno}")
+        rel = {ast.LtE: "≤", ast.Lt: "<", ast.Eq: "=", ast.Gt: ">", ast.GtE: "≥", ast.NotEq: "≠"}.get(type(op))
+        if rel is None:
+            raise Untranslatable(f"guard relation at line {test.lineno}")
+        return f"decide ({l} {rel} ({c} : Int))"
+    raise Untranslatable(f"guard at line {getattr(test, 'lineno', '?')}")
+
+
+def closed_rule(tree, src, cls):
+    """-> dict(cls, defs=[(name, params, term, comment)], rejects, pointsLen, weightsLen, pointAt, weightAt, lo, hi)"""
+    f = _class_init(tree, cls)
+    args = [a.arg for a in f.args.args]
+    if args != ["self", "npoints"]:
+        raise Untranslatable(f"{cls}.__init__ signature {args}")
+    env = {"npoints": Sc("((n : Nat) : K)")}
+    nenv = {"npoints": "n"}
+    defs, guards, version = [], [], {}
+    U = ast.unparse
+    final = None
+
+    def bind(name, val, comment):
+        k = version.get(name, -1) + 1
+        version[name] = k
+        dn = f"{cls}.{name}{k}"
+        if isinstance(val, Ar):
+            defs.append((dn, "(n i : Nat)", val.at("i"), comment))
+            env[name] = Ar(val.length, lambda i, dn=dn: f"({dn} n {i})")
+        elif isinstance(val, Mt):
+            defs.append((dn, "(n j i : Nat)", val.at("j", "i"), comment))
+            env[name] = Mt(val.rows, val.cols, lambda j, i, dn=dn: f"({dn} n {j} {i})")
+        else:
+            defs.append((dn, "(n : Nat)", val.term, comment))
+            env[name] = Sc(f"({dn} n)")
+
+    for st in f.body:
+        if _is_docstring(st):
+            continue
+        if _is_guard(st):
+            for r in st.body:
+                exc = r.exc.func.id if isinstance(r.exc, ast.Call) and isinstance(r.exc.func, ast.Name) else None
+                if exc != "ValueError":
+                    raise Untranslatable(f"{cls}: guard raising {exc} (line {st.lineno})")
+            guards.append(_guard_cond(st.test, "npoints"))
+            continue
+        if _is_super_init(st):
+            a = st.value.args
+            if not (len(a) == 3 and all(isinstance(x, ast.Name) for x in a[:2]) and isinstance(a[2], ast.Tuple) and len(a[2].elts) == 2):
+                raise Untranslatable(f"{cls}: super().__init__ arguments (line {st.lineno})")
+            lo, hi = a[2].elts
+            lo_t = KExpr(src, {}).tr(lo)
+            hi_t = "none" if is_np(hi, "inf") else f"(some {KExpr(src, {}).tr(hi)})"
+            final = (a[0].id, a[1].id, lo_t, hi_t)
+            continue
+        ex = ArrayExpr(src, env, nenv)
+        if isinstance(st, ast.AugAssign):
+            ops = {ast.Mult: "*", ast.Div: "/", ast.Add: "+", ast.Sub: "-"}
+            if type(st.op) not in ops:
+                raise Untranslatable(f"{cls}: augmented operator (line {st.lineno})")
+            o = ops[type(st.op)]
+            t = st.target
+            if isinstance(t, ast.Name):
+                cur = env.get(t.id)
+                if cur is None:
+                    raise Untranslatable(f"{cls}: augmented assignment to an unknown name (line {st.lineno})")
+                bind(t.id, ex.lift(lambda a, b: f"({a} {o} {b})", cur, ex.tr(st.value)), U(st))
+                continue
+            if isinstance(t, ast.Subscript) and isinstance(t.value, ast.Name) and isinstance(env.get(t.value.id), Ar):
+                cur = env[t.value.id]
+                c = ex.tr(st.value)
+                if not isinstance(c, Sc):
+                    raise Untranslatable(f"{cls}: slice update by a non-scalar (line {st.lineno})")
+                if isinstance(t.slice, ast.Slice):
+                    sl = t.slice
+                    if sl.lower is None or sl.upper is None:
+                        raise Untranslatable(f"{cls}: open slice (line {st.lineno})")
+                    lo_n, hi_n = ex.nat(sl.lower), ex.nat(sl.upper)
+                    stp = ex.nat(sl.step) if sl.step is not None else "1"
+                    cond = lambda i: f"({lo_n} ≤ {i} ∧ {i} < {hi_n} ∧ ({i} - {lo_n}) % {stp} = 0)"
+                else:
+                    idx = ex.nat(t.slice)
+                    cond = lambda i: f"{i} = {idx}"
+                bind(t.value.id, Ar(cur.length, lambda i, cur=cur, c=c, cond=cond:
+                                    f"(if {cond(i)} then ({cur.at(i)} {o} {c.term}) else {cur.at(i)})"), U(st))
+                continue
+            raise Untranslatable(f"{cls}: augmented assignment at line {st.lineno}")
+        name = _single_target(st)
+        if name is None:
+            raise Untranslatable(f"{cls}: statement at line {st.lineno}")
+        bind(name, ex.tr(st.value), U(st))
+    if final is None:
+        raise Untranslatable(f"{cls}: super().__init__ not found")
+    pn, wn, lo_t, hi_t = final
+    if not (isinstance(env.get(pn), Ar) and isinstance(env.get(wn), Ar)):
+        raise Untranslatable(f"{cls}: points / weights are not 1-D arrays")
+    return dict(cls=cls, defs=defs, rejects=" || ".join(guards) if guards else "false",
+                pointsLen=env[pn].length, weightsLen=env[wn].length,
+                pointAt=env[pn].at("i"), weightAt=env[wn].at("i"), lo=lo_t, hi=hi_t)
+
+
+# ----------------------------------------------------------------------------------------------
 def lean_text(path=None) -> str:
     path = path or (SRC / "onedgrid.py")
     src = path.read_text()
@@ -462,6 +690,8 @@ def lean_text(path=None) -> str:
     P.append("import GridVerif.Model.Elem\n\nset_option linter.unusedVariables false\n")
     P.append("namespace GridVerif.Gen.OneD\nopen GridVerif\n")
     P.append("section\nvariable {K : Type} [Add K] [Sub K] [Mul K] [Div K] [Neg K] [NatCast K] [Elem K]\n")
+    P.append("/-- `Σ_{j<m} f j`, accumulated from `0` in index order (what a `b @ M` product / `np.sum` denotes). -/")
+    P.append("def gsum (m : Nat) (f : Nat → K) : K :=\n  (List.range m).foldl (fun acc j => acc + f j) ((0 : Nat) : K)\n")
     for cls in SUBST:
         r = subst_rule(tree, src, cls)
         P.append(f"/-- `{cls}`: node as a function of the index value `k` (`{r['kname']}`) and the step `h` (`{r['hname']}`). -/")
@@ -494,7 +724,24 @@ def lean_text(path=None) -> str:
         if r["patch"]:
             P.append(f"/-- `{cls}`: value written by `if ...: bj[...] = c`. -/")
             P.append(f"def {cls}.patchVal : K := {r['patch']['val']}\n")
+    closed = [closed_rule(tree, src, cls) for cls in CLOSED]
+    for r in closed:
+        cls = r["cls"]
+        for dn, params, term, comment in r["defs"]:
+            P.append(f"/-- `{cls}`: `{comment}` -/")
+            P.append(f"def {dn} {params} : K :=\n  {term}\n")
+        P.append(f"/-- `{cls}`: entry `i` of the `points` / `weights` handed to `OneDGrid.__init__`, and the declared domain. -/")
+        P.append(f"def {cls}.pointAt (n i : Nat) : K := {r['pointAt']}")
+        P.append(f"def {cls}.weightAt (n i : Nat) : K := {r['weightAt']}")
+        P.append(f"def {cls}.lo : K := {r['lo']}")
+        P.append(f"def {cls}.hi : Option K := {r['hi']}\n")
     P.append("end\n")
+    for r in closed:
+        cls = r["cls"]
+        P.append(f"/-- `{cls}`: the `raise ValueError` guards, and the lengths of `points` / `weights`. -/")
+        P.append(f"def {cls}.rejects (npoints : Int) : Bool := {r['rejects']}")
+        P.append(f"def {cls}.pointsLen (n : Nat) : Nat := {r['pointsLen']}")
+        P.append(f"def {cls}.weightsLen (n : Nat) : Nat := {r['weightsLen']}\n")
     for cls in SUBST:
         r = subst_rule(tree, src, cls)
         P.append(f"/-- `{cls}`: first index value and number of index values (from the `np.arange` line). -/")
